@@ -19,6 +19,7 @@ package kafka
 
 import (
 	"fmt"
+	"sync"
 
 	"github.com/Shopify/sarama"
 	"github.com/megaease/easegress/pkg/context"
@@ -61,6 +62,13 @@ type (
 		topicKey     string
 		headerKey    string
 		payloadKey   string
+
+		// mu guards closed. Handle holds the read lock while it hands a message
+		// to the producer, Close takes the write lock before it lets the
+		// producer shut down, so that a request still running on a closed
+		// (superseded) generation never sends on the producer's closed input.
+		mu     sync.RWMutex
+		closed bool
 	}
 )
 
@@ -138,6 +146,10 @@ func (k *Kafka) Inherit(previousGeneration filters.Filter) {
 
 // Close close Kafka
 func (k *Kafka) Close() {
+	k.mu.Lock()
+	k.closed = true
+	k.mu.Unlock()
+
 	close(k.done)
 }
 
@@ -202,6 +214,14 @@ func (k *Kafka) Handle(ctx *context.Context) string {
 		Topic:   topic,
 		Headers: kafkaHeaders,
 		Value:   sarama.ByteEncoder(payload),
+	}
+
+	k.mu.RLock()
+	defer k.mu.RUnlock()
+	if k.closed {
+		// The filter was closed (e.g. superseded by a new generation), its
+		// producer is shutting down: the message cannot be delivered.
+		return resultGetDataFailed
 	}
 	k.producer.Input() <- msg
 	return ""
